@@ -41,6 +41,9 @@ type C17Scn struct {
 	Admins   [][]C17Admin  `json:"admins"`
 	Stalls   []simfs.Fault `json:"stalls,omitempty"`
 	Sched    SchedCfg      `json:"sched"`
+	// network faults: transient accept errors injected into the listener ([at_ms, n] pairs); clients may
+	// also reset their connection abruptly right after sending a call (step "reset")
+	AcceptErrs [][2]int `json:"accept_errs,omitempty"`
 }
 
 type c17Conn struct {
@@ -270,6 +273,14 @@ func runC17(t *testing.T, scAny any, trace bool) *Outcome {
 						continue
 					case "close":
 						return
+					case "reset":
+						// the network kills the connection right after a call was sent: whatever the server is
+						// doing with that call, the connection must end up uncounted
+						call := nfsclient.Call{XID: uint32(900000 + ci*100 + si), Prog: nfsclient.ProgNFS, Vers: 3, Proc: 0, Cred: nfsclient.AuthNone(), Verf: nfsclient.AuthNone()}
+						cl.Conn.Write(nfsclient.Frame(call.Encode(), nil))
+						cl.Conn.Reset()
+						simrt.Fault("net.reset_by_peer")
+						return
 					}
 					if cl.Dead {
 						return
@@ -340,6 +351,15 @@ func runC17(t *testing.T, scAny any, trace bool) *Outcome {
 						}
 						return
 					}
+				}
+			})
+		}
+		for _, ae := range sc.AcceptErrs {
+			ae := ae
+			simrt.Go("accept-errors", func() {
+				simrt.Sleep(time.Duration(ae[0]) * time.Millisecond)
+				if l := simrt.ListenerOn(w.Port); l != nil {
+					l.InjectAcceptErrors(ae[1])
 				}
 			})
 		}
@@ -420,12 +440,20 @@ func runC17(t *testing.T, scAny any, trace bool) *Outcome {
 		for range len(sc.Clients) + len(sc.Admins) {
 			simrt.Recv("actors.wait", done)
 		}
-		// quiescence: every client has closed; the server notices and uncounts
-		simrt.Sleep(maxStall + 200*time.Millisecond)
+		// quiescence: every client has closed; the server notices and uncounts. Injected accept errors delay
+		// the accept of connections already in the backlog (the accept loop backs off 100 ms per error)
+		settle := 200 * time.Millisecond
+		for _, f := range sc.Stalls {
+			settle += f.Stall // one request can run into several stalled calls, one after the other
+		}
+		for _, ae := range sc.AcceptErrs {
+			settle += time.Duration(ae[1]) * 110 * time.Millisecond
+		}
+		simrt.Sleep(settle)
 		o.Tick()
 		if stopTimedOut.Load() == 0 {
 			if cc, mm := absnfs.VerifConnCounts(srv); cc != 0 || mm != 0 {
-				o.Vio("C17.connection-still-counted-after-end", "", "all clients closed their connections %v ago but connCount=%d tracked=%d", maxStall+200*time.Millisecond, cc, mm)
+				o.Vio("C17.connection-still-counted-after-end", "", "all clients closed their connections %v ago but connCount=%d tracked=%d", settle, cc, mm)
 			}
 		}
 		if sc.Export && closeReturned.Load() != 0 {
@@ -434,6 +462,20 @@ func runC17(t *testing.T, scAny any, trace bool) *Outcome {
 				when += ",a-backend-call-outlasted-the-5s-stop-grace"
 			}
 			c17Released(o, w, "close", when)
+		}
+		// bounded liveness once the faults have stopped: a server that nobody stopped still accepts and serves
+		if adminStarted.Load() == 0 && maxStall < time.Second {
+			o.Tick()
+			if pc, err := w.Dial("10.0.0.1:650", RootCred, nil); err != nil {
+				o.Vio("C17.not-serving-after-faults", "dial", "after all clients had gone (no Stop/Close issued) a new connection was refused: %v", err)
+			} else {
+				pc.Timeout = 30 * time.Second
+				if rep, err := pc.RawCall(nfsclient.ProgNFS, 3, 0, nil); err != nil || rep == nil {
+					o.Vio("C17.not-serving-after-faults", "no-reply", "after all clients had gone (no Stop/Close issued, connCount 0) a new connection's NULL call got no reply: %v", err)
+				}
+				pc.Close()
+				simrt.Sleep(50 * time.Millisecond)
+			}
 		}
 		// final shutdown, twice: repeating is harmless
 		err1 := srv.Stop()
@@ -527,10 +569,15 @@ func genC17(r *simrt.Rand, tier string) any {
 				}
 				c.Steps = append(c.Steps, C17Step{Op: "idle", Ms: ms})
 			case 4:
-				c.Steps = append(c.Steps, C17Step{Op: "close"})
+				c.Steps = append(c.Steps, C17Step{Op: []string{"close", "close", "reset"}[r.Int(3)]})
 			}
 		}
 		sc.Clients = append(sc.Clients, c)
+	}
+	if r.Pct(25) {
+		for i, n := 0, 1+r.Int(2); i < n; i++ {
+			sc.AcceptErrs = append(sc.AcceptErrs, [2]int{[]int{0, 1, 40, 600, 2900}[r.Int(5)], 1 + r.Int(6)})
+		}
 	}
 	if r.Pct(20) && sc.IdleNs >= 1e9 {
 		// IdleTimeout lowered at runtime, followed by clients that go idle after the change has settled
@@ -630,7 +677,7 @@ func shrinkC17(scAny any) []any {
 
 func init() {
 	Register(&Prop{ID: "C17", Level: "exploration", Race: true,
-		Rule: "one case = 2-6 clients opening connections at drawn instants from 3 addresses and each performing 1-6 of NULL / MNT+GETATTR / LOOKUP+READDIR calls, idle periods of 1 ms-700 s and closes, against a server with MaxConnections 1-4 and IdleTimeout from {default (5 min), 1 ns, 1 ms, 200 ms, 1 s, 5 s, 40 s, 90 s} (in 20% of those with >= 1 s lowered to 200 ms at runtime, idle periods then start after the reaper has had one old check interval to notice), AllowedIPs empty or excluding one of the three client addresses (30%), started through NewServer+Listen or through AbsfsNFS.Export, 0-2 admin actors issuing Stop / Close / Unexport (also repeated and concurrently) at drawn instants, 0-2 backend calls stalled for 5 ms-7 s, every lock/channel/select/network interleaving decided by the seeded scheduler (random, PCT, sticky; 30% sequential), also built with -race; monitors: (a) connections answered at least once and closed on neither side never exceed MaxConnections, (b) a client outside AllowedIPs is never served and never stays counted; connCount equals the tracked set, stays within 0..MaxConnections, covers every served open connection and is 0 once all clients have closed, (c) an answered connection idle for more than 2*IdleTimeout+100 ms has been closed by the server; an active one is not dropped, (d) after Stop returns nil no goroutine created in server.go is alive, the count is 0, later calls are never answered and the listener refuses; Stop only times out when a backend call is stalled beyond its 5 s grace, (e) after Close/Unexport of an exported server the handle table and both caches are empty (on return when nothing is stalled, and at quiescence), repeating Stop/Close/Unexport returns nil, (f) no panic, no server goroutine alive at the end of the run; non-trivial = at least two clients; distinct by event digest",
+		Rule: "one case = 2-6 clients opening connections at drawn instants from 3 addresses and each performing 1-6 of NULL / MNT+GETATTR / LOOKUP+READDIR calls, idle periods of 1 ms-700 s, closes and abrupt resets right after a call was sent; in 25% of runs 1-6 transient accept errors injected into the listener at drawn instants, against a server with MaxConnections 1-4 and IdleTimeout from {default (5 min), 1 ns, 1 ms, 200 ms, 1 s, 5 s, 40 s, 90 s} (in 20% of those with >= 1 s lowered to 200 ms at runtime, idle periods then start after the reaper has had one old check interval to notice), AllowedIPs empty or excluding one of the three client addresses (30%), started through NewServer+Listen or through AbsfsNFS.Export, 0-2 admin actors issuing Stop / Close / Unexport (also repeated and concurrently) at drawn instants, 0-2 backend calls stalled for 5 ms-7 s, every lock/channel/select/network interleaving decided by the seeded scheduler (random, PCT, sticky; 30% sequential), also built with -race; monitors: (a) connections answered at least once and closed on neither side never exceed MaxConnections, (b) a client outside AllowedIPs is never served and never stays counted; connCount equals the tracked set, stays within 0..MaxConnections, covers every served open connection and is 0 once all clients have closed, (c) an answered connection idle for more than 2*IdleTimeout+100 ms has been closed by the server; an active one is not dropped, (d) after Stop returns nil no goroutine created in server.go is alive, the count is 0, later calls are never answered and the listener refuses; Stop only times out when a backend call is stalled beyond its 5 s grace, (e) after Close/Unexport of an exported server the handle table and both caches are empty (on return when nothing is stalled, and at quiescence), repeating Stop/Close/Unexport returns nil, (f) no panic, no server goroutine alive at the end of the run, (g) bounded liveness after the faults: when nobody stopped the server a fresh connection is accepted and answered; non-trivial = at least two clients; distinct by event digest",
 		Gen:  genC17, New: func() any { return &C17Scn{} }, Run: runC17, Shrink: shrinkC17,
 		Real:    []string{"server.go accept loop, connection registry, idle reaper, Stop", "absnfs.go Close, operations.go Unexport/Export", "rpc/nfs handlers, worker pool, caches, handle table"},
 		Stubbed: seqStubbed})
